@@ -8,7 +8,7 @@ from .const import GOODWE_TCP_PORT, GOODWE_UDP_PORT
 from .dt import DT
 from .es import ES
 from .et import ET
-from .exceptions import InverterError, RequestFailedException
+from .exceptions import InverterError, MaxRetriesException, RequestFailedException
 from .inverter import Inverter, OperationMode, Sensor, SensorKind
 from .model import DT_MODEL_TAGS, ES_MODEL_TAGS, ET_MODEL_TAGS
 from .protocol import ProtocolCommand, UdpInverterProtocol, Aa55ProtocolCommand
@@ -129,5 +129,5 @@ async def search_inverters() -> bytes:
         if result is not None:
             return result.response_data()
         raise InverterError("No response received to broadcast request.")
-    except asyncio.CancelledError:
-        raise InverterError("No valid response received to broadcast request.") from None
+    except (asyncio.CancelledError, MaxRetriesException):
+        raise RequestFailedException("No valid response received to broadcast request.") from None
